@@ -382,6 +382,31 @@ pub open spec fn book_ok(z: Seq<ZoomInfo>, e: Seq<ZoomHeader>, idx: Seq<int>, d:
 pub open spec fn umax(a: int, b: int) -> int { if a >= b { a } else { b } }
 pub open spec fn umin(a: int, b: int) -> int { if a <= b { a } else { b } }
 
+/// the selection rule as a function of the first k levels: (indices kept, stopped by a cap).
+/// Automatic mode keeps a level iff its staged data is at most half the full data and it has strictly
+/// fewer sections than the level kept before it; manual mode keeps every level; both stop after 10
+/// kept levels (header room), automatic mode also after max_zooms.
+pub open spec fn sel(z: Seq<ZoomInfo>, k: int, half: int, maxz: int, auto: bool) -> (Seq<int>, bool)
+    decreases k
+{
+    if k <= 0 { (Seq::<int>::empty(), false) } else {
+        let p = sel(z, k - 1, half, maxz, auto);
+        if p.1 { p } else {
+            let last: int = if p.0.len() == 0 { u64::MAX as int } else { z[p.0.last()].sections.count() as int };
+            if auto && (z[k - 1].data.staged().len() > half || last <= z[k - 1].sections.count()) { (p.0, false) }
+            else { (p.0.push(k - 1), (auto && p.0.len() + 1 >= maxz) || p.0.len() + 1 >= 10) }
+        }
+    }
+}
+/// once stopped, later levels are not looked at
+pub proof fn lemma_sel_stopped(z: Seq<ZoomInfo>, k: int, n: int, half: int, maxz: int, auto: bool)
+    requires 0 <= k <= n, sel(z, k, half, maxz, auto).1,
+    ensures sel(z, n, half, maxz, auto) == sel(z, k, half, maxz, auto),
+    decreases n - k,
+{
+    if k < n { lemma_sel_stopped(z, k, n - 1, half, maxz, auto); }
+}
+
 // ---- lemmas ----
 pub proof fn lemma_prefix_trans(a: Seq<u8>, b: Seq<u8>, c: Seq<u8>)
     requires prefix(a, b), prefix(b, c),
@@ -494,12 +519,17 @@ pub fn write_zooms(file: &mut FSink,
         r matches Ok(v) ==> (options.manual_zoom_sizes is Some ==> v@.len() == umin(zooms@.len() as int, 10)
             && forall|j: int| 0 <= j < v@.len() ==> (#[trigger] v@[j]).reduction_level == zooms@[j].resolution),
         
+        r matches Ok(v) ==> ({ let s = sel(zooms@, zooms@.len() as int, data_size as int / 2, options.max_zooms as int, options.manual_zoom_sizes is None).0;
+            v@.len() == s.len() && forall|j: int| 0 <= j < v@.len() ==> (#[trigger] v@[j]).reduction_level == zooms@[s[j]].resolution }),
+        
         r matches Ok(v) ==> v@.len() <= 10 && 24 * v@.len() <= 240,
 {
     let ghost d0 = file.data();
     let ghost n0 = d0.len() as int;
     let ghost z = zooms@;
     let ghost idx: Seq<int> = Seq::empty();
+    let ghost half = data_size as int / 2;
+    let ghost maxz = options.max_zooms as int;
 
     let mut zoom_entries: Vec<ZoomHeader> = Vec::with_capacity(zooms.len());
     let mut zoom_count = 0;
@@ -510,6 +540,7 @@ pub fn write_zooms(file: &mut FSink,
             
             check_zoom ==> zoom_count < umax(options.max_zooms as int, 1),
             zoom_entries@.len() < MAX_ZOOM_LEVELS,
+            !sel(z, zi__ as int, half, maxz, check_zoom).1,
         invariant
             
             z == zooms@, levels_ascending(z), d0 == old(file).data(), n0 == d0.len(), MAX_ZOOM_LEVELS == 10,
@@ -529,10 +560,16 @@ pub fn write_zooms(file: &mut FSink,
             check_zoom && idx.len() > 0 ==> last_zoom_section_count == z[idx.last()].sections.count(),
             idx.len() == 0 ==> last_zoom_section_count == u64::MAX,
             
+            half == data_size as int / 2, maxz == options.max_zooms as int,
+            idx == sel(z, zi__ as int, half, maxz, check_zoom).0,
+            sel(z, zi__ as int, half, maxz, check_zoom).1 ==> sel(z, z.len() as int, half, maxz, check_zoom) == sel(z, zi__ as int, half, maxz, check_zoom),
+            
             !check_zoom ==> zoom_entries@.len() == zi__ && forall|j: int| 0 <= j < idx.len() ==> (#[trigger] idx[j]) == j,
         ensures
             
             !check_zoom ==> zoom_entries@.len() == umin(z.len() as int, 10),
+            
+            idx == sel(z, z.len() as int, half, maxz, check_zoom).0,
         decreases
             
             z.len() - zi__,
@@ -586,6 +623,8 @@ pub fn write_zooms(file: &mut FSink,
             assert(entry_holds(d3, zoom_entries@.last(), z[k])); 
             lemma_book_push(z, e_old, idx, d1, d3, n0, k, zoom_entries@.last());
             idx = idx.push(k);
+            assert(idx == sel(z, zi__ as int, half, maxz, check_zoom).0); 
+            if sel(z, zi__ as int, half, maxz, check_zoom).1 { lemma_sel_stopped(z, zi__ as int, z.len() as int, half, maxz, check_zoom); }
         }
         zoom_count = zoom_count + (1);
         if check_zoom && zoom_count >= options.max_zooms {
@@ -602,6 +641,9 @@ pub fn write_zooms(file: &mut FSink,
         assert forall|j: int| 0 <= j < zoom_entries@.len() implies lvl_of(z, (#[trigger] zoom_entries@[j]).reduction_level) == idx[j] by {
             assert(entry_holds(file.data(), zoom_entries@[j], z[idx[j]]));
             lemma_lvl_of(z, idx[j]);
+        }
+        assert forall|j: int| 0 <= j < zoom_entries@.len() implies (#[trigger] zoom_entries@[j]).reduction_level == z[idx[j]].resolution by {
+            assert(entry_holds(file.data(), zoom_entries@[j], z[idx[j]]));
         }
     }
     Ok(zoom_entries)
